@@ -88,6 +88,23 @@ class Order(ast.NodeVisitor):
         else:
             self.visit(f)
 
+    def visit_If(self, node):
+        # `if [not] hasattr(self, "x_"): self.x_ = A  else: self.x_ = B` - the attribute is (re)written whatever the test says:
+        # the existence test is not a history read
+        t = node.test.operand if isinstance(node.test, ast.UnaryOp) and isinstance(node.test.op, ast.Not) else node.test
+        if isinstance(t, ast.Call) and isinstance(t.func, ast.Name) and t.func.id == "hasattr" and len(t.args) == 2 \
+                and isinstance(t.args[0], ast.Name) and t.args[0].id == "self" and isinstance(t.args[1], ast.Constant) and _fitted(str(t.args[1].value)):
+            a = t.args[1].value
+
+            def first_writes(stmts):
+                return bool(stmts) and isinstance(stmts[0], ast.Assign) and any(F._self_attr(x) == a for x in stmts[0].targets)
+            if first_writes(node.body) and first_writes(node.orelse):
+                self.ev.append(("W", a, node.lineno))
+                for st in node.body + node.orelse:
+                    self.visit(st)
+                return
+        self.generic_visit(node)
+
     def visit_FunctionDef(self, node):      # nested functions / lambdas: analysed where they are defined (conservative)
         for s in node.body:
             self.visit(s)
@@ -147,7 +164,6 @@ def analyse(root=REPO + "/skactiveml", entry="fit"):
 # (re)written right after the test whatever its outcome
 REVIEWED = {
     ("SklearnClassifier", "estimator_", "H"),           # `if hasattr(self, "estimator_"): if fit_function != "partial_fit": self.estimator_ = deepcopy(...)`
-    ("SlidingWindowClassifier", "estimator_", "H"),     # both branches assign deepcopy(self.estimator)
     ("SlidingWindowClassifier", "X_train_", "H"),       # _add_samples: created if missing, then reset when fit_func == "fit"
     ("SlidingWindowClassifier", "y_train_", "H"),
     ("SlidingWindowClassifier", "sample_weight_train_", "H"),
